@@ -5,7 +5,9 @@ A finite prefix `ops0` (any interleaving, containing all the launches) is follow
 launch-free schedule. If no fault occurs and, again and again, a tick happens at a moment when the
 environment owes nothing (`EnvReady`), then at some point every launch has been answered — or a tick
 is reached in which nothing is in flight anywhere and every CU refuses the next work-group of a
-dispatcher (the group does not fit the hardware: the real dispatcher waits for ever, too). -/
+dispatcher (before the repair 91eb1bb3: the group does not fit the hardware and the dispatcher waited
+for ever; now such a launch is rejected with the fault "oversize" when it is taken, and this
+alternative needs an initial pool that is not empty — `Props/C09Fit.lean`, `Props/C09Held.lean`). -/
 namespace C09
 
 /-! ## every launched kernel is queued, being dispatched, or answered -/
